@@ -277,6 +277,9 @@ def scaleDims (k : Nat) : Nat × Nat := (64 / k, 48 / k)
 /-- `rfbScalingSetup`: find or allocate the screen, move the reference -/
 def setScale (w : World) (i : Nat) (k : Nat) : World :=
   let d := scaleDims k
+  -- a factor that reduces a dimension to 0 finds no screen and `rfbScaledScreenAllocate` refuses:
+  -- "leaving things alone" — the client keeps its screen AND its reference
+  if d.1 == 0 || d.2 == 0 then w else
   match w.conns[i]? with
   | none => w
   | some c =>
@@ -333,7 +336,7 @@ def msgOk (st : St) (m : Msg) : Bool :=
   | .ver, .ver => true
   | .sec, .sec => true
   | .init, .init _ => true
-  | .normal, .scale k => k ≤ 48
+  | .normal, .scale k => k ≤ 255
   | .normal, .enc | .normal, .req | .normal, .pf | .normal, .key
   | .normal, .junk | .normal, .part | .normal, .ft => true
   | _, _ => false
